@@ -168,9 +168,14 @@ func (e *execState) checkQueries(bo *blockObs) {
 					}
 				}
 				var got []bk
+				// one request in three spells the bidder in upper-case bech32: the same account
+				spelt := bidder
+				if bidder != "" && im == "true" {
+					spelt = strings.ToUpper(bidder)
+				}
 				err := pageAll(limit, func(p *query.PageRequest) (int, []byte, error) {
 					var resp types.QueryAllBidResponse
-					code, log, err := n.grpcQuery("ListBid", &types.QueryAllBidRequest{AuctionId: a.ID, Bidder: bidder, IsMatched: im, Pagination: p}, &resp)
+					code, log, err := n.grpcQuery("ListBid", &types.QueryAllBidRequest{AuctionId: a.ID, Bidder: spelt, IsMatched: im, Pagination: p}, &resp)
 					if err != nil || code != 0 {
 						return 0, nil, fmt.Errorf("code=%d %s %v", code, log, err)
 					}
@@ -189,6 +194,9 @@ func (e *execState) checkQueries(bo *blockObs) {
 				}
 				if im != "" {
 					key += "+is_matched"
+				}
+				if spelt != bidder {
+					key += "+upper-case-spelling"
 				}
 				if err != nil {
 					e.qv(bo, "query.list_bid", "error", fmt.Sprintf("ListBid(auction=%d,bidder=%q,is_matched=%q) failed: %v", a.ID, short(bidder), im, err))
